@@ -143,10 +143,17 @@ def stepTask (s : Pool) (tid : Nat) (t : Task) : Label → Option (Task × HoldE
   | .spawn _ =>
     if t.phase == .starting && s.holds tid && t.st == .running && !t.spawned && !t.cancelReq && t.deps.all s.depOk then
       some ({ t with phase := .running, alive := true, spawned := true, spawnAt := s.now }, .keep)
+    else if t.phase == .starting && s.holds tid && t.st == .cancelled && t.hist == .cancelled && !t.spawned && t.cancelReq
+        && t.deps.all s.depOk then
+      -- the cancel request arrived while the process was being started: the start-up is not interrupted
+      -- (the process exists and must be killed with its group), see the kill rule for `running ∧ cancelReq`
+      some ({ t with phase := .running, alive := true, spawned := true, spawnAt := s.now }, .keep)
     else none
   | .spawnFail _ =>
     if t.phase == .starting && s.holds tid && t.st == .running && !t.spawned && !t.cancelReq then
       some ({ t with phase := .failing, hist := .spawnFailed }, .keep)
+    else if t.phase == .starting && s.holds tid && t.st == .cancelled && !t.spawned && t.cancelReq then
+      some (t, .keep)                            -- cancelled during a start-up that failed: no process, stays cancelled
     else none
   | .kill _ =>
     if t.phase == .running && t.alive && t.cancelReq then
